@@ -8,7 +8,8 @@
    references added by Element.__escaped_text and Attribute.__unicode__, and
    PrefixNormalizer.refitValue).  `xml_chardata_decode` / `xml_attvalue_decode`
    are the XML 1.0 rules an independent parser applies (None = not well-formed). *)
-From SV Require Import Lib.Base Gen.C04Tables C04.Model C04.EncProofs C04.DecodeProofs C04.ReplyProofs C04.TreeProofs C04.Bounded.
+From SV Require Import Lib.Base Gen.C04Tables C04.Model C04.EncProofs C04.DecodeProofs C04.RefitProofs C04.ReplyProofs
+     C04.TreeProofs C04.Chunks C04.Tokens C04.TokenProofs C04.PrettyTokens C04.Bounded.
 Local Open Scope N_scope.
 
 (* ------------------------------------------------------------------ *)
@@ -78,6 +79,22 @@ Theorem attr_roundtrip_refuted_qname :
     exists raw v, request_attr scope pi s = Some raw /\ xml_attvalue_decode QUOT raw = Some v /\ v <> s.
 Proof. exact attr_roundtrip_refuted_qname_l. Qed.
 Print Assumptions attr_roundtrip_refuted_qname.
+
+(* exactly which attribute values the prefix normaliser touches: p:rest with p
+   bound to a namespace other than the three skipped (xs, xsi, xml) pairs *)
+Theorem refit_only_bound_prefixes : forall scope pi v,
+  qname_rewritten scope pi v = true ->
+  exists p name u, split_colon v = Some (p, name) /\ resolve scope p = Some (p, u)
+                   /\ ns_skip (p, u) = false.
+Proof. exact refit_only_bound_prefixes_l. Qed.
+Print Assumptions refit_only_bound_prefixes.
+
+(* in particular a value without a colon always survives *)
+Theorem attr_without_colon : forall scope pi s,
+  chars_legal s = true -> has_entity_ref s = false -> mem COLON s = false ->
+  exists raw, request_attr scope pi s = Some raw /\ xml_attvalue_decode QUOT raw = Some s.
+Proof. exact attr_without_colon_l. Qed.
+Print Assumptions attr_without_colon.
 
 (* the escaped flag: escaping an escaped Text changes nothing *)
 Theorem escape_once : forall t,
@@ -154,6 +171,13 @@ Theorem reply_text_exact : forall chunks,
 Proof. exact reply_text_exact_l. Qed.
 Print Assumptions reply_text_exact.
 
+(* ... however the parser cuts a run of character data into chunks *)
+Theorem chunking_irrelevant : forall a b r f st root,
+  run_handler close_text (EvChars (a ++ b) :: r) (f :: st) root
+  = run_handler close_text (EvChars a :: EvChars b :: r) (f :: st) root.
+Proof. exact merge_chunks. Qed.
+Print Assumptions chunking_irrelevant.
+
 (* trimming happens only for elements with children *)
 Theorem trim_only_nonleaf : forall buf n,
   close_text buf 0 = match buf with [] => None | _ => Some (mkText (concat (rev buf)) false) end
@@ -212,4 +236,46 @@ Example tree_nonvacuous :
   reread_gen true t = El [97] [([120], mkText [34; 9] false)] (Some (mkText [60] false))
                          [El [98] [] (Some (mkText [32; 121; 32] false)) []] /\
   handler (events_pretty 0 t) = Some (reread_gen true t).
+Proof. repeat split; reflexivity. Qed.
+
+
+(* ------------------------------------------------------------------ *)
+(* ... on the CHARACTERS the serialisers write                         *)
+(* ------------------------------------------------------------------ *)
+(* `xml_tokens` (Tokens.v) cuts a serialised element into events following the
+   XML 1.0 grammar (start / end / empty-element tags, attributes in either
+   quote, character data with references and CDATA).  Both serialisers, any
+   tree whose names contain no delimiter and whose values contain no entity
+   reference: the characters written, cut by the grammar and fed to the
+   Handler, give back the tree. *)
+Theorem plain_tokens : forall t,
+  tree_ok t = true -> names_ok t = true -> xml_tokens (plain t) = Some (events_plain t).
+Proof. exact plain_tokens_l. Qed.
+Print Assumptions plain_tokens.
+
+Theorem pretty_tokens : forall t,
+  tree_ok t = true -> names_ok t = true -> xml_tokens (pretty 0 t) = Some (mevents 0 t).
+Proof. exact pretty_tokens_l. Qed.
+Print Assumptions pretty_tokens.
+
+Theorem plain_end_to_end : forall t,
+  tree_ok t = true -> names_ok t = true ->
+  option_map canon (match xml_tokens (plain t) with Some evs => handler evs | None => None end)
+  = Some (canon t).
+Proof. exact plain_end_to_end_l. Qed.
+Print Assumptions plain_end_to_end.
+
+Theorem pretty_end_to_end : forall t,
+  tree_ok t = true -> names_ok t = true ->
+  option_map canon (match xml_tokens (pretty 0 t) with Some evs => handler evs | None => None end)
+  = Some (canon t).
+Proof. exact pretty_end_to_end_l. Qed.
+Print Assumptions pretty_end_to_end.
+
+Example end_to_end_nonvacuous :
+  let t := El [97] [([120], mkText [34; 9] false)] (Some (mkText [32; 60; 32] false))
+              [El [98] [] (Some (mkText [32; 121; 32] false)) []; El [99] [] None []] in
+  tree_ok t = true /\ names_ok t = true /\
+  pretty 0 t = [60;97;32;120;61;34;38;113;117;111;116;59;38;35;57;59;34;62;32;38;108;116;59;32;
+                10;32;32;32;60;98;62;32;121;32;60;47;98;62;10;32;32;32;60;99;47;62;10;60;47;97;62].
 Proof. repeat split; reflexivity. Qed.
